@@ -216,6 +216,67 @@ class Hooks:
         return NotImplemented
 
 
+def decide_by_model(interp, test, env, fi, values):
+    """Decide a comparison of scalar expressions by evaluating both sides under a representative assignment of the
+    scalar symbols (`values`: symbol name -> Fraction): a consistent choice of one *ordering* of the times involved.
+    Returns True / False, or NotImplemented if the test is not such a comparison."""
+    saved = interp.hooks
+    interp.hooks = _PlainHooks(saved)
+    try:
+        def num(e):
+            v = interp.eval(e, env, fi)
+            if is_num(v):
+                return nf.frac(v)
+            if isinstance(v, Rat):
+                table = {}
+                for a in nf.all_atoms(v):
+                    if a[0] == "s" and a[1] in values:
+                        table[a] = Rat.const(values[a[1]])
+                c = nf.substitute(v, table).const_value()
+                if c is not None:
+                    return c
+            raise AnalysisError("not a scalar under the ordering model")
+
+        def ev(e):
+            if isinstance(e, ast.BoolOp):
+                vals = [ev(x) for x in e.values]
+                return all(vals) if isinstance(e.op, ast.And) else any(vals)
+            if isinstance(e, ast.UnaryOp) and isinstance(e.op, ast.Not):
+                return not ev(e.operand)
+            if isinstance(e, ast.Compare):
+                left = num(e.left)
+                for op, r in zip(e.ops, e.comparators):
+                    right = num(r)
+                    ok = {ast.Lt: left < right, ast.LtE: left <= right, ast.Gt: left > right, ast.GtE: left >= right,
+                          ast.Eq: left == right, ast.NotEq: left != right}.get(type(op))
+                    if ok is None:
+                        raise AnalysisError("unsupported comparison")
+                    if not ok:
+                        return False
+                    left = right
+                return True
+            raise AnalysisError("not a comparison")
+        try:
+            return ev(test)
+        except (AnalysisError, SimRaise):
+            return NotImplemented
+    finally:
+        interp.hooks = saved
+
+
+class _PlainHooks:
+    """Delegates everything to the wrapped hooks except `decide` (no recursion while probing a test)."""
+
+    def __init__(self, inner):
+        self._inner = inner
+
+    def decide(self, interp, test, env, fi):
+        return NotImplemented
+
+    def __getattr__(self, name):
+        return getattr(self._inner, name)
+
+
 class Interp:
     def __init__(self, model, hooks=None):
         self.model = model
